@@ -596,6 +596,58 @@ func c08RunPrespecified(pre []uint32, sameConn bool) explore.Result {
 	return res
 }
 
+// c08RunReparse: a statement name is parsed, described, then parsed AGAIN with another text (no Close in between)
+// and described again (k times): every Describe announces the declared parameter types and columns of the
+// definition in force, and a Bind + Execute afterwards reaches that definition.
+func c08RunReparse(name string, describesBefore, describesAfter int, closeBetween bool) explore.Result {
+	var res explore.Result
+	res.Outcome = "prespecified"
+	res.Key = fmt.Sprint("reparse", name, describesBefore, describesAfter, closeBetween)
+	decl := map[string][]oid.Oid{"first $1": {oid.T_int4}, "second $1 $2": {oid.T_text, oid.T_varchar}}
+	cols := map[string]wire.Columns{"first $1": c08Columns(1), "second $1 $2": c08Columns(2)}
+	var ran []string
+	parse := func(ctx context.Context, q string) (wire.PreparedStatements, error) {
+		return wire.Prepared(wire.NewStatement(func(ctx context.Context, w wire.DataWriter, params []wire.Parameter) error {
+			ran = append(ran, fmt.Sprintf("%s/%d", q, len(params)))
+			return w.Complete("OK")
+		}, wire.WithParameters(decl[q]), wire.WithColumns(cols[q]))), nil
+	}
+	one, err := harness.StartOne(parse)
+	if err != nil {
+		res.Engine = err.Error()
+		return res
+	}
+	defer one.Stop()
+	one.Step(pgproto.Startup("user", "u"))
+	one.Step(pgproto.Cat(pgproto.Parse(name, "first $1"), pgproto.Sync()))
+	for i := 0; i < describesBefore; i++ {
+		one.Step(pgproto.Cat(pgproto.Describe('S', name), pgproto.Sync()))
+	}
+	if closeBetween {
+		one.Step(pgproto.Cat(pgproto.Close('S', name), pgproto.Sync()))
+	}
+	one.Step(pgproto.Cat(pgproto.Parse(name, "second $1 $2"), pgproto.Sync()))
+	what := fmt.Sprintf("statement %q parsed (1 int4 parameter, 1 column), described %d times, closed: %v, parsed again (text + varchar parameters, 2 columns)", name, describesBefore, closeBetween)
+	for i := 0; i < describesAfter; i++ {
+		out, _ := one.Step(pgproto.Cat(pgproto.Describe('S', name), pgproto.Sync()))
+		ms, perr := pgproto.ParseBackend(out)
+		if perr != nil || len(ms) < 2 || ms[0].Type != 't' || ms[1].Type != 'T' {
+			res.Fail("reply-sequence", fmt.Sprintf("%s: Describe answered %q %v", what, pgproto.Kinds(ms), perr))
+			return res
+		}
+		if fmt.Sprint(ms[0].OIDs) != fmt.Sprint([]uint32{25, 1043}) || len(ms[1].Cols) != 2 {
+			res.Fail("parameter-description", fmt.Sprintf("%s: Describe %d afterwards announces parameter types %v and %d columns, the statement declares [25 1043] and 2 columns", what, i+1, ms[0].OIDs, len(ms[1].Cols)))
+			return res
+		}
+	}
+	one.Step(pgproto.Cat(pgproto.Bind("", name, nil, [][]byte{[]byte("a"), []byte("b")}, nil), pgproto.Execute("", 0), pgproto.Sync()))
+	if len(ran) != 1 || ran[0] != "second $1 $2/2" {
+		res.Fail("parameter-values", fmt.Sprintf("%s: Bind with two values + Execute ran %v", what, ran))
+	}
+	res.Trans = []string{"parsed|parsed again|described"}
+	return res
+}
+
 // c08RunRebind: the same portal name is bound several times to the same statement with different
 // result-format sections (and parameter values); after every Bind the portal must reflect THAT Bind.
 func c08RunRebind(cols int, rounds [][]int16) explore.Result {
@@ -876,6 +928,20 @@ func c08Enumerate(tier string, emit explore.Emit) {
 			portal, order := portal, order
 			emit(explore.Case{Family: "two-connections", Size: 6, Desc: func() any { return map[string]any{"portal": portal, "steps": order} },
 				Run: func() explore.Result { return c08RunTwoConns(portal, order) }})
+		}
+	}
+	for _, name := range []string{"", "s"} {
+		for before := 0; before <= 2; before++ {
+			for after := 1; after <= 2; after++ {
+				for _, cl := range []bool{false, true} {
+					name, before, after, cl := name, before, after, cl
+					emit(explore.Case{Family: "prespecified-types", Size: 4,
+						Desc: func() any {
+							return map[string]any{"statement": name, "describes_before_the_second_parse": before, "describes_after": after, "closed_between": cl}
+						},
+						Run: func() explore.Result { return c08RunReparse(name, before, after, cl) }})
+				}
+			}
 		}
 	}
 	// types pre-declared by the client in Parse
